@@ -1632,6 +1632,18 @@ impl<T: Transport, Env: UtpEnvironment> VirtualSocket<T, Env> {
                     false,
                     "both reader and writer are dead",
                 );
+            } else if ((self.user_rx.is_reader_dropped() && self.user_tx.is_writer_dropped())
+                || self.user_tx.is_writer_shutdown())
+                && self.unsent_data_exists()
+            {
+                // The consumer is gone, but its data can't be sent yet (e.g. the remote window is
+                // closed). Noone else is left to give up on a remote that never lets us send it.
+                self.timers.remote_inactivity_timer.arm(
+                    self.this_poll.now,
+                    self.socket_opts.remote_inactivity_timeout,
+                    false,
+                    "consumer closed, unsent data is stuck",
+                );
             }
 
             // If there's a timer-based next poll to run, arm the timer.
